@@ -13,7 +13,7 @@ variable {K V : Type}
 /-- the per-block results the assembly rests on (proved in `CSUp` / `CSDel` / `CSParkKind`) -/
 def ResumeU (K V : Type) : Prop :=
   ∀ (P : Params K) (t : Nat) (s : St K V) (k : Kont K V) (H : List Lk) (hole : Option Nat),
-    isDelK k = false → Pre P hole s → (∀ x, hole = some x → Lk.node x ∉ H) →
+    isDelK k = false → Pre P hole s →
     KontOk s.tree k → CursorOk s.tree (isHopK k) s.cursor → KontPre s.cursor k → Covers H s.cursor k →
     Post H hole s (resume P t s k).1 (resume P t s k).2 ∧ flowHole (resume P t s k).2 = none
 
@@ -40,5 +40,232 @@ def stepHeld (th : Thread K V) : List Lk :=
 
 theorem parkHole_want (l : Lk) (k : Kont K V) : parkHole (.want l k) = kontHole k := by
   cases k <;> rfl
+
+theorem isHop_want (l : Lk) (k : Kont K V) : isHop (.want l k) = isHopK k := by
+  cases k <;> rfl
+
+theorem isHop_yielded (k : Kont K V) : isHop (Park.yielded k) = false := rfl
+
+/-- a block never parks at the cursor hop (only `Scan` itself does) -/
+theorem resume_not_hop (P : Params K) (t : Nat) (s : St K V) (k : Kont K V) :
+    flowIsHop (resume P t s k).2 = false := by
+  by_cases hp : pointKont k = true
+  · have := (resume_keeps P t s k hp).2
+    cases hfl : (resume P t s k).2 with
+    | panic => rfl
+    | done r => rfl
+    | park p =>
+      rw [hfl] at this
+      cases p with
+      | start => rfl
+      | finished => rfl
+      | yielded k' => rfl
+      | want l k' =>
+        have hk' : pointKont k' = true := this
+        cases k' <;> first | rfl | (simp [pointKont] at hk')
+  · cases k with
+    | roTree sc key => simp only [resume]; rfl
+    | roNode sc key hold want =>
+      simp only [resume, roArrive]
+      split
+      · rfl
+      · split
+        · split
+          · rfl
+          · split <;> rfl
+        · split
+          · rfl
+          · split <;> rfl
+    | hop cur next => simp only [resume]; rfl
+    | paused => simp only [resume]; rfl
+    | _ => simp [pointKont] at hp
+
+structure ThreadOut (T0 : Tree K V) (H : List Lk) (hole' : Option Nat) (th : Thread K V)
+    (r : Thread K V × St K V × Bool) : Prop where
+  alive  : r.2.2 = false
+  tree   : TreeOk hole' r.2.1.tree
+  frame  : FrameEq (keepOf H T0.nextId) T0.flat r.2.1.tree.flat
+  nextId : T0.nextId ≤ r.2.1.tree.nextId
+  root   : Lk.tree ∈ H ∨ (r.2.1.tree.rootId = T0.rootId ∧ r.2.1.tree.depth = T0.depth)
+  order  : r.2.1.tree.order = T0.order
+  sok    : ThreadSOk r.2.1.tree r.1
+  disc   : DiscOk r.1
+  extra  : ∀ x ∈ parkExtra r.2.1.tree r.1.park, T0.nextId ≤ x
+  prog   : r.1.prog = th.prog
+
+/-- the loop after a first stretch that satisfied `Post` -/
+theorem after_post (B : Blocks K V) (t : Nat) (th : Thread K V) (H : List Lk) (hole' : Option Nat)
+    (s0 s : St K V) (fl : Flow K V) (pc : Nat) (hpost : Post H hole' s0 s fl)
+    (hlive : ∀ p, fl = .park p → parkLive p) (hnh : flowIsHop fl = false)
+    (hdisc : ∃ st', disciplined st' (th.prog.drop (pc + 1)) = true ∧ flowAbs st' fl s.cursor s.exhausted) :
+    ThreadOut s0.tree H hole' th (threadLoop t th th.prog.length s fl pc) ∧
+      parkHole (threadLoop t th th.prog.length s fl pc).1.park = flowHole fl := by
+  have hinv : LoopInv s.tree s0.tree.nextId th s fl pc :=
+    { tree := rfl
+      nopanic := hpost.nopanic
+      kont := fun p hp => ⟨(hpost.kont p hp).1, (hpost.kont p hp).2.1, (hpost.kont p hp).2.2, hlive p hp⟩
+      cursor := by rw [hnh]; exact hpost.cursor
+      disc := hdisc }
+  have hout := loop_sinv B.start B.startLive t th s.tree hole' s0.tree.nextId hpost.tree th.prog.length s fl pc hinv
+  refine ⟨⟨hout.alive, ?_, ?_, ?_, ?_, ?_, ?_, hout.disc, ?_, hout.prog⟩, hout.hole⟩
+  · rw [hout.tree]; exact hpost.tree
+  · rw [hout.tree]; exact hpost.frame
+  · rw [hout.tree]; exact hpost.nextId
+  · rw [hout.tree]; exact hpost.root
+  · rw [hout.tree]; exact hpost.order
+  · rw [hout.tree]; exact hout.sok
+  · rw [hout.tree]; exact hout.extra
+
+
+theorem mem_stepHeld_of_held {th : Thread K V} {l : Lk} (h : l ∈ th.held) : l ∈ stepHeld th := by
+  unfold stepHeld
+  cases th.park with
+  | want l' k => exact List.mem_append_left _ h
+  | _ => exact h
+
+theorem covers_of_ok {th : Thread K V} {s0 : St K V} (hc0 : s0.cursor = th.cursor) (hok : ThreadOk th)
+    (k : Kont K V) (hp : th.park = .yielded k ∨ ∃ l, th.park = .want l k) :
+    Covers (stepHeld th) s0.cursor k := by
+  obtain ⟨hperm, _, hlock⟩ := hok
+  refine ⟨?_, ?_, ?_⟩
+  · intro x hx
+    apply mem_stepHeld_of_held
+    apply hperm.mem_iff.2
+    apply List.mem_append_right
+    rcases hp with hp | ⟨l, hp⟩ <;> rw [hp] <;> exact hx
+  · intro x hx
+    rcases hp with hp | ⟨l, hp⟩
+    · rw [hp] at hlock
+      have : kontLock k = none := hlock
+      rw [this] at hx; cases hx
+    · rw [hp] at hlock
+      have : kontLock k = some l := hlock
+      rw [this] at hx
+      cases hx
+      unfold stepHeld; rw [hp]; simp
+  · intro x hx
+    apply mem_stepHeld_of_held
+    apply hperm.mem_iff.2
+    apply List.mem_append_left
+    rw [← hc0]; exact hx
+
+/-- **one scheduler step of one thread keeps the structural invariant**, given the
+    per-block results -/
+theorem runThread_sinv (B : Blocks K V) (P : Params K) (t : Nat) (th : Thread K V) (s0 : St K V) (hole : Option Nat)
+    (h0 : s0.held = th.held) (hc0 : s0.cursor = th.cursor) (he0 : s0.exhausted = th.exhausted)
+    (hpre : Pre P hole s0) (hok : ThreadOk th) (hs : ThreadSOk s0.tree th) (hd : DiscOk th)
+    (hnf : th.park ≠ .finished)
+    (hhole : isDelPark th.park = true → hole = parkHole th.park) :
+    ∃ hole', ThreadOut s0.tree (stepHeld th) hole' th (runThread P t th s0) ∧
+      (isDelPark th.park = true → hole' = parkHole (runThread P t th s0).1.park) ∧
+      (isDelPark th.park = false → hole' = hole ∧ parkHole (runThread P t th s0).1.park = none) := by
+  unfold runThread
+  cases hp : th.park with
+  | finished => exact absurd hp hnf
+  | start =>
+    simp only
+    unfold DiscOk at hd
+    rw [hp] at hd
+    obtain ⟨hdisc, hcur⟩ := hd
+    cases hop : th.prog[0]? with
+    | none =>
+      refine ⟨hole, ⟨rfl, hpre.tree, FrameEq.refl _ _, Nat.le_refl _, Or.inr ⟨rfl, rfl⟩, rfl, ⟨trivial, ?_⟩, trivial, ?_, rfl⟩,
+        fun h => by simp [isDelPark] at h, fun _ => ⟨rfl, rfl⟩⟩
+      · rw [hcur]; trivial
+      · intro x hx; cases hx
+    | some op =>
+      simp only
+      have hlt : 0 < th.prog.length := by
+        rcases Nat.lt_or_ge 0 th.prog.length with h | h
+        · exact h
+        · rw [List.getElem?_eq_none h] at hop; cases hop
+      have hprog : th.prog = op :: th.prog.drop 1 := by
+        have := List.drop_eq_getElem_cons (l := th.prog) (i := 0) hlt
+        rw [List.drop_zero] at this
+        rw [this]
+        congr 1
+        rw [List.getElem?_eq_getElem hlt] at hop
+        exact Option.some.inj hop
+      rw [hprog] at hdisc
+      obtain ⟨st'', hstep, hrest⟩ := disciplined_cons hdisc
+      let s1 := s0.note t (.inv 0)
+      have hs1c : s1.cursor = none := by show s0.cursor = none; rw [hc0, hcur]
+      have habs := startOp_abs t s1 op .N st'' (by show cursorLocks s1.cursor = []; rw [hs1c]; rfl) hstep
+        (by intro leaf i e; rw [hs1c] at e; cases e)
+      have hcok : CursorOk s1.tree false s1.cursor := by rw [hs1c]; trivial
+      obtain ⟨hs_tree, hs_np, hs_park, hs_cur⟩ := B.start t s1 op hole hpre.tree hcok habs.1
+      have hinv : LoopInv s0.tree s0.tree.nextId th (startOp t s1 op).1 (startOp t s1 op).2 0 :=
+        { tree := hs_tree
+          nopanic := hs_np
+          kont := by
+            intro p hp'
+            obtain ⟨a, b, c, _⟩ := hs_park p hp'
+            refine ⟨a, b, ?_, B.startLive t s1 op p hp'⟩
+            have : parkExtra s0.tree p = [] := c
+            rw [this]; intro x hx; cases hx
+          cursor := hs_cur
+          disc := ⟨st'', hrest, habs.2⟩ }
+      have hout := loop_sinv B.start B.startLive t th s0.tree hole s0.tree.nextId hpre.tree th.prog.length _ _ 0 hinv
+      refine ⟨hole, ⟨hout.alive, ?_, ?_, ?_, ?_, ?_, ?_, hout.disc, ?_, hout.prog⟩,
+        fun h => by simp [isDelPark] at h, fun _ => ⟨rfl, ?_⟩⟩
+      · rw [hout.tree]; exact hpre.tree
+      · rw [hout.tree]; exact FrameEq.refl _ _
+      · rw [hout.tree]; exact Nat.le_refl _
+      · rw [hout.tree]; exact Or.inr ⟨rfl, rfl⟩
+      · rw [hout.tree]
+      · rw [hout.tree]; exact hout.sok
+      · rw [hout.tree]; exact hout.extra
+      · rw [hout.hole]
+        cases hfl : (startOp t s1 op).2 with
+        | panic => rfl
+        | done _ => rfl
+        | park p => exact (hs_park p hfl).2.2.2
+  | want l k =>
+    simp only
+    unfold DiscOk at hd
+    unfold ThreadSOk at hs
+    rw [hp] at hd hs hhole
+    obtain ⟨st', hd1, hd2⟩ := hd
+    have hcov := covers_of_ok hc0 hok k (Or.inr ⟨l, hp⟩)
+    have hkp : KontPre s0.cursor k := by
+      have := hok.2.1; rw [hp] at this; rw [hc0]; exact this
+    have hcur : CursorOk s0.tree (isHopK k) s0.cursor := by
+      have := hs.2; rw [isHop_want] at this; rw [hc0]; exact this
+    have habs := resume_abs P t s0 k st' (by rw [hc0, he0]; exact hd2) hkp
+    cases hdel : isDelK k with
+    | false =>
+      obtain ⟨hpost, hfh⟩ := B.resU P t s0 k (stepHeld th) hole hdel hpre hs.1 hcur hkp hcov
+      obtain ⟨hout, hh⟩ := after_post B t th (stepHeld th) hole s0 _ _ th.pc hpost
+        (fun p hp' => B.resLive P t s0 k p hp') (resume_not_hop P t s0 k) ⟨st', hd1, habs⟩
+      exact ⟨hole, hout, fun h => by simp [isDelPark, hdel] at h, fun _ => ⟨rfl, by rw [hh, hfh]⟩⟩
+    | true =>
+      have hhk : hole = kontHole k := by
+        rw [hhole (by simp [isDelPark, hdel]), parkHole_want]
+      have hpost := B.resD P t s0 k (stepHeld th) hdel (by rw [← hhk]; exact hpre) hs.1 hkp hcov
+      obtain ⟨hout, hh⟩ := after_post B t th (stepHeld th) _ s0 _ _ th.pc hpost
+        (fun p hp' => B.resLive P t s0 k p hp') (resume_not_hop P t s0 k) ⟨st', hd1, habs⟩
+      exact ⟨_, hout, fun _ => hh.symm, fun h => by simp [isDelPark, hdel] at h⟩
+  | yielded k =>
+    simp only
+    unfold DiscOk at hd
+    unfold ThreadSOk at hs
+    rw [hp] at hd hs hhole
+    obtain ⟨st', hd1, hd2⟩ := hd
+    have hcov := covers_of_ok hc0 hok k (Or.inl hp)
+    have hkp : KontPre s0.cursor k := by
+      have := hok.2.1; rw [hp] at this; rw [hc0]; exact this
+    have hlock : kontLock k = none := by
+      have := hok.2.2; rw [hp] at this; exact this
+    have hdel : isDelK k = false := by
+      cases k <;> first | rfl | (simp [kontLock] at hlock)
+    have hhop : isHopK k = false := by
+      cases k <;> first | rfl | (simp [kontLock] at hlock)
+    have hcur : CursorOk s0.tree (isHopK k) s0.cursor := by
+      have := hs.2; rw [isHop_yielded] at this; rw [hc0, hhop]; exact this
+    have habs := resume_abs P t s0 k st' (by rw [hc0, he0]; exact hd2) hkp
+    obtain ⟨hpost, hfh⟩ := B.resU P t s0 k (stepHeld th) hole hdel hpre hs.1 hcur hkp hcov
+    obtain ⟨hout, hh⟩ := after_post B t th (stepHeld th) hole s0 _ _ th.pc hpost
+      (fun p hp' => B.resLive P t s0 k p hp') (resume_not_hop P t s0 k) ⟨st', hd1, habs⟩
+    exact ⟨hole, hout, fun h => by simp [isDelPark, hdel] at h, fun _ => ⟨rfl, by rw [hh, hfh]⟩⟩
 
 end Gobptree.Conc
